@@ -103,6 +103,9 @@ func c10Check(c *hist.Case, r *evid.Rec) []evid.Disc {
 				}
 				tag := hist.TagOf(o.P.Payload)
 				pid := o.P.PacketID
+				if s.A.Kind == "burst" {
+					r.Label("concurrent-allocation")
+				}
 				if pid == 0 {
 					ds = append(ds, evid.D("C10-packet-identifier-zero", "step %d: %s", s.I, o.P))
 				}
@@ -189,13 +192,15 @@ func c10Gen(rt *rapid.T) *hist.Case {
 	}
 	c.Actions = append(c.Actions, sub,
 		hist.Action{Kind: "subscribe", Client: 0, Filters: []refmqtt.Filter{{Filter: "t/#", QoS: 2}}},
-		hist.Action{Kind: "connect", Client: 1, Version: 4, Clean: true, AutoAck: true})
+		hist.Action{Kind: "connect", Client: 1, Version: 4, Clean: true, AutoAck: true},
+		hist.Action{Kind: "connect", Client: 2, Version: 4, Clean: true, AutoAck: true},
+		hist.Action{Kind: "connect", Client: 3, Version: 5, Clean: true, AutoAck: true})
 	if rapid.IntRange(0, 2).Draw(rt, "wrap") == 0 {
 		c.Actions = append(c.Actions, hist.Action{Kind: "pidcursor", Client: 0, Offset: int64(rapid.IntRange(65530, 65535).Draw(rt, "cursor"))})
 	}
 	small := rapid.Uint16Range(1, 4)
 	action := rapid.Custom(func(rt *rapid.T) hist.Action {
-		switch rapid.IntRange(0, 12).Draw(rt, "kind") {
+		switch rapid.IntRange(0, 14).Draw(rt, "kind") {
 		case 0, 1, 2, 3:
 			return hist.Action{Kind: "publish", Client: 1, Topic: "t/a", QoS: byte(rapid.IntRange(1, 2).Draw(rt, "qos"))}
 		case 4, 5:
@@ -211,8 +216,12 @@ func c10Gen(rt *rapid.T) *hist.Case {
 			return hist.Action{Kind: pick(rt, "how", []string{"drop", "close"}), Client: 0}
 		case 11:
 			return sub
-		default:
+		case 12:
 			return hist.Action{Kind: "pidcursor", Client: 0, Offset: int64(rapid.IntRange(65530, 65535).Draw(rt, "cursor"))}
+		default:
+			// three publishers at once: identifier allocation for the one subscriber runs concurrently in their handlers
+			n := rapid.IntRange(2, 12).Draw(rt, "burstn")
+			return hist.Action{Kind: "burst", Burst: []hist.BurstItem{{Client: 1, Topic: "t/a", QoS: 1, Count: n}, {Client: 2, Topic: "t/b", QoS: 1, Count: n}, {Client: 3, Topic: "t/c", QoS: 2, Count: n}}}
 		}
 	})
 	c.Actions = append(c.Actions, rapid.SliceOfN(action, 4, 35).Draw(rt, "actions")...)
